@@ -13,6 +13,24 @@ CHECKS = {
         note="trusts pandas for executing partition tasks, the own executor (dask.core semantics), and the comparator's order/index freedom derived from static flags",
         ref="§3 C01",
     ),
+    "C04": dict(
+        technique="differential + metamorphic property-based testing (widening sources with unused columns; Hypothesis programs + templates)",
+        text="Projection-heavy generated programs: every stage vs the unoptimized lowering, and the metamorphic relation 'extra unused source columns never change the result' in two variants (source-projected, end-projected). Bounded exploration.",
+        note="same trusted base as C01; variant E only for programs made of column-independent operators (list in vlib/props/c04.py)",
+        ref="§3 C04",
+    ),
+    "C09": dict(
+        technique="property-based testing with a validity predicate over materialised task graphs (generated programs x stages, sibling-variant templates)",
+        text="For every stage of generated programs the graph dict is scanned: output keys, closure of key references incl. fused sub-graphs, acyclicity, per-expression layer collisions (also across several values of one program computed together), planner objects, cloudpickle, execution. Bounded exploration.",
+        note="key-shaped references are recognised structurally; imported (persisted) graphs legitimately reuse key names of what they hold results of",
+        ref="§3 C09",
+    ),
+    "C19": dict(
+        technique="property-based testing of termination (pass-count bound), determinism and idempotence (metamorphic re-optimization) over generated programs",
+        text="The fixed-point loops are driven pass by pass with a bound linear in plan size; plans must be identical across repetitions and rebuilds; re-optimized and further-built-on optimized collections must compute the unoptimized result. Bounded exploration; liveness decided as bounded work.",
+        note="watchdog hits are inconclusive, never violations; delayed-backed queries are excluded from cross-build name comparison",
+        ref="§3 C19",
+    ),
     "C12": dict(
         technique="bounded-exhaustive property-based enumeration of shuffle routes with invariant oracles (permutation, co-location, cross-frame consistency)",
         text="Every (n_in, n_out, max_branch) route up to the bound x method x key kind is executed and checked against invariants over the per-partition outputs; the int-vs-float consistency is observed directly on the two shuffles a hash join plans. Exhaustive inside the stated box only.",
